@@ -2,6 +2,7 @@ package main
 
 import (
 	"go/types"
+	"math/big"
 )
 
 func init() {
@@ -89,6 +90,34 @@ func propC06(a *Analysis, r *Registry) {
 					r.Fail(rB, "stats.(HypergeometicDist).sum/bound", b.pos(fn), "the loop stops on a further condition on dk besides dk <= k-L: "+clip(within.String(), 300))
 				default:
 					r.OK(rB, "stats.(HypergeometicDist).sum/bound", b.pos(fn), "another term is added only while dk <= k-L (besides the truncation of negligible terms)")
+				}
+				// the truncation itself: within the bound the loop goes on exactly while the last
+				// term is still non-negligible relative to the sum — eps < ak/sum (or eps·sum < ak)
+				// for a small positive constant eps; the reverse test stops after the first term
+				truncOK := within.Equal(X.S.True())
+				if wa := within.SingleAtom(); wa != nil && (wa.Name == "cmp<" || wa.Name == "cmp<=") {
+					lo, hi := wa.Args[0], wa.Args[1]
+					small := func(r *RF) bool {
+						c, isC := r.IsConst()
+						return isC && c.Sign() > 0 && c.Cmp(big.NewRat(1, 1000000000)) <= 0
+					}
+					rel := vars["ak"].Div(vars["sum"])
+					if small(lo) && (hi.Equal(rel) || X.EquivByCases(hi, rel, 0)) {
+						truncOK = true
+					}
+					if !truncOK {
+						// eps·sum < ak
+						for _, eps := range []string{"1e-14", "1e-15", "1e-16", "1e-13", "1e-12"} {
+							if hi.Equal(vars["ak"]) && lo.Equal(env.MustParse(eps+"*sum")) {
+								truncOK = true
+							}
+						}
+					}
+				}
+				if truncOK {
+					r.OK(rB, "stats.(HypergeometicDist).sum/truncation", b.pos(fn), "within the bound the loop goes on exactly while the last term is non-negligible (eps < ak/sum)")
+				} else {
+					r.Fail(rB, "stats.(HypergeometicDist).sum/truncation", b.pos(fn), "within the bound the loop goes on while "+clip(within.String(), 200)+", not while the last term is non-negligible relative to the sum: terms that matter are dropped")
 				}
 			}
 		})
